@@ -76,7 +76,7 @@ fn parse_enumeration(ty: &Type, primitive_type: &TokenStream2) -> Result<(Custom
                         match option_generic_type {
                             GenericArgument::Type(generic_type) => {
                                 let result_type_string = format!(
-                                    "Result<{}, {}>",
+                                    "::core::result::Result<{}, {}>",
                                     generic_type.to_token_stream(),
                                     primitive_type,
                                 );
